@@ -4,7 +4,11 @@
     pre-repair back-link of [ReverseComplement] as [orc_orig] for the [_refuted] theorems.
     The complement table comes from the REGENERATED file Gen/Tables.v (dumped from the current build
     on every run). Bytes are [N], positions [Z], indices / registers [nat].
-    Executable definitions only: proofs live in Proofs.v, property theorems in Props.v. *)
+    Round 2: objects also carry their features (Features(), a third buffer) and their mate (PairTo / UnPair /
+    PairedWith()); constructors through the Write family (bytes stored as given, not lower-cased) and raw
+    appends ([OWrite]); Join as repaired (the qualities follow the symbols; [join_val_orig] is the code before).
+    Executable definitions only: proofs live in Proofs.v / Proofs2.v, property theorems in Props.v; the
+    ownership model is Heap.v (+ HeapProofs.v), the validator of real pool traces Trace.v. *)
 From Coq Require Import NArith ZArith List Bool.
 From OBI.C07.Gen Require Import Tables.
 Import ListNotations.
@@ -62,7 +66,11 @@ Definition rc (s : list N) : list N := rev (map comp s).
 (** ---------------- values: what an object holds (projected observables) *)
 Definition key := list N.
 Definition mmap := list (key * Z).                    (* pairing_mismatches: key -> 1-based position *)
-Record value := mkv { vseq : list N; vqual : list N (* [] = no qualities *); vmm : option mmap }.
+(** [vfeat]: Features(); [vmate]: the object PairedWith() answers (index in [objs]) *)
+Record value := mkv { vseq : list N; vqual : list N (* [] = no qualities *); vmm : option mmap;
+                      vfeat : list N; vmate : option nat }.
+Definition unpaired (v : value) : value := mkv (vseq v) (vqual v) (vmm v) (vfeat v) None.
+Definition with_mate (v : value) (m : option nat) : value := mkv (vseq v) (vqual v) (vmm v) (vfeat v) m.
 
 Inductive res (A : Type) := Ok (a : A) | Err | Panic.
 Arguments Ok {A} a. Arguments Err {A}. Arguments Panic {A}.
@@ -80,9 +88,9 @@ Definition rc_val (v : value) : res value :=
   let len := length (vseq v) in
   let q := match vqual v with [] => [] | q => run_loop (fun x => x) len q end in
   match vmm v with
-  | None => Ok (mkv (rc_loop (vseq v)) q None)
+  | None => Ok (mkv (rc_loop (vseq v)) q None (vfeat v) (vmate v))
   | Some m => if forallb (fun kp => key_wf (fst kp)) m
-              then Ok (mkv (rc_loop (vseq v)) q (Some (rc_mm (Z.of_nat len) m)))
+              then Ok (mkv (rc_loop (vseq v)) q (Some (rc_mm (Z.of_nat len) m)) (vfeat v) (vmate v))
               else Panic                                  (* index out of range in rev(m) *)
   end.
 
@@ -125,7 +133,8 @@ Definition sub_val (v : value) (from to : Z) (circ : bool) : res value :=
   | Ok (from1, to1) =>
     let s := window (vseq v) len from1 to1 in
     let q := match vqual v with [] => [] | q => window q len from1 to1 end in
-    Ok (mkv s q (option_map (sub_mm from1 len (Z.of_nat (length s))) (vmm v)))
+    (* the window is a new object: no features, no mate *)
+    Ok (mkv s q (option_map (sub_mm from1 len (Z.of_nat (length s))) (vmm v)) [] None)
   end.
 
 (** ---------------- the other operations of the histories *)
@@ -136,8 +145,16 @@ Fixpoint key_eqb (a b : key) : bool :=
 Fixpoint mm_set (k : key) (p : Z) (m : mmap) : mmap :=
   match m with [] => [(k, p)] | (k', p') :: m' => if key_eqb k k' then (k, p) :: m' else (k', p') :: mm_set k p m' end.
 
+(** Join (repaired: the qualities follow the symbols; seq2.Qualities() is the default vector of 40s when
+    seq2 has none) and the code before the repair (symbols only) *)
+Definition quals_or_default (v : value) : list N :=
+  match vqual v with [] => repeat 40 (length (vseq v)) | q => q end.
+Definition join_val (v v2 : value) : value :=
+  mkv (vseq v ++ vseq v2) (match vqual v with [] => [] | q => q ++ quals_or_default v2 end) (vmm v) (vfeat v) (vmate v).
+Definition join_val_orig (v v2 : value) : value := mkv (vseq v ++ vseq v2) (vqual v) (vmm v) (vfeat v) (vmate v).
+
 Inductive op :=
-| ONew (s q : list N) (m : option mmap)
+| ONew (s q : list N) (m : option mmap) (f : list N) (lower : bool)   (* lower = false: built through Write/WriteString/WriteByte *)
 | OCopy (r : nat)
 | ORc (r : nat) (inplace : bool)
 | OSub (r : nat) (from to : Z) (circ : bool)
@@ -148,6 +165,11 @@ Inductive op :=
 | OPokeQ (r : nat) (i b : N)
 | OSetMm (r : nat) (m : mmap)
 | OPokeMm (r : nat) (k : key) (p : Z)
+| OWrite (r : nat) (s : list N)                          (* Write / WriteString / WriteByte: raw append *)
+| OSetFeat (r : nat) (f : list N)
+| OPokeF (r : nat) (i b : N)
+| OPair (r r2 : nat)
+| OUnpair (r : nat)
 | ORecycle (r : nat)
 | ONop.                                                   (* pool churn / GC: no effect on any object *)
 
@@ -184,25 +206,42 @@ Definition step (st : state) (o : op) : (status * Z * Z) * state :=
     | Some ob => match nth_error (objs st) ob with None => fails SErr st | Some v => f ob v end
     end in
   match o with
-  | ONew s q m => alloc st (mkv (to_lower s) q m)
-  | OCopy r => on r (fun _ v => alloc st v)
+  | ONew s q m f lower => alloc st (mkv (if lower then to_lower s else s) q m f None)
+  | OCopy r => on r (fun _ v => alloc st (unpaired v))
   | ORc r inplace => on r (fun ob v =>
       match rc_val v with
-      | Ok v' => if inplace then alias (set_obj st ob v') ob else alloc st v'
+      | Ok v' => if inplace then alias (set_obj st ob v') ob else alloc st (unpaired v')
       | Err => fails SErr st | Panic => fails SPanic st end)
   | OSub r from to circ => on r (fun _ v =>
       match sub_val v from to circ with
       | Ok v' => alloc st v' | Err => fails SErr st | Panic => fails SPanic st end)
   | OJoin r r2 inplace => on r (fun ob v => on r2 (fun _ v2 =>
-      let v' := mkv (vseq v ++ vseq v2) (vqual v) (vmm v) in
-      if inplace then alias (set_obj st ob v') ob else alloc st v'))
-  | OSetSeq r s => on r (fun ob v => quiet (set_obj st ob (mkv (to_lower s) (vqual v) (vmm v))))
-  | OSetQual r q => on r (fun ob v => quiet (set_obj st ob (mkv (vseq v) q (vmm v))))
-  | OPoke r i b => on r (fun ob v => quiet (set_obj st ob (mkv (upd (N.to_nat i) b (vseq v)) (vqual v) (vmm v))))
-  | OPokeQ r i b => on r (fun ob v => quiet (set_obj st ob (mkv (vseq v) (upd (N.to_nat i) b (vqual v)) (vmm v))))
-  | OSetMm r m => on r (fun ob v => quiet (set_obj st ob (mkv (vseq v) (vqual v) (Some m))))
+      let v' := join_val v v2 in
+      if inplace then alias (set_obj st ob v') ob else alloc st (unpaired v')))
+  | OSetSeq r s => on r (fun ob v => quiet (set_obj st ob (mkv (to_lower s) (vqual v) (vmm v) (vfeat v) (vmate v))))
+  | OSetQual r q => on r (fun ob v => quiet (set_obj st ob (mkv (vseq v) q (vmm v) (vfeat v) (vmate v))))
+  | OPoke r i b => on r (fun ob v => quiet (set_obj st ob (mkv (upd (N.to_nat i) b (vseq v)) (vqual v) (vmm v) (vfeat v) (vmate v))))
+  | OPokeQ r i b => on r (fun ob v => quiet (set_obj st ob (mkv (vseq v) (upd (N.to_nat i) b (vqual v)) (vmm v) (vfeat v) (vmate v))))
+  | OSetMm r m => on r (fun ob v => quiet (set_obj st ob (mkv (vseq v) (vqual v) (Some m) (vfeat v) (vmate v))))
   | OPokeMm r k p => on r (fun ob v =>
-      quiet (set_obj st ob (mkv (vseq v) (vqual v) (option_map (mm_set k p) (vmm v)))))
+      quiet (set_obj st ob (mkv (vseq v) (vqual v) (option_map (mm_set k p) (vmm v)) (vfeat v) (vmate v))))
+  | OWrite r s => on r (fun ob v => quiet (set_obj st ob (mkv (vseq v ++ s) (vqual v) (vmm v) (vfeat v) (vmate v))))
+  | OSetFeat r f => on r (fun ob v => quiet (set_obj st ob (mkv (vseq v) (vqual v) (vmm v) f (vmate v))))
+  | OPokeF r i b => on r (fun ob v => quiet (set_obj st ob (mkv (vseq v) (vqual v) (vmm v) (upd (N.to_nat i) b (vfeat v)) (vmate v))))
+  (* PairTo: s.paired = p; p.paired = s — the former mates of s and p keep their (now stale) links *)
+  | OPair r r2 => on r (fun ob v => on r2 (fun ob2 _ =>
+      let st1 := set_obj st ob (with_mate v (Some ob2)) in
+      match nth_error (objs st1) ob2 with
+      | Some v2 => quiet (set_obj st1 ob2 (with_mate v2 (Some ob)))
+      | None => quiet st1 end))
+  (* UnPair: s.paired.paired = nil (whatever it pointed to, even when the mate was recycled); s.paired = nil *)
+  | OUnpair r => on r (fun ob v =>
+      let st1 := match vmate v with
+                 | Some m => match nth_error (objs st) m with Some vm => set_obj st m (with_mate vm None) | None => st end
+                 | None => st end in
+      match nth_error (objs st1) ob with
+      | Some v1 => quiet (set_obj st1 ob (with_mate v1 None))
+      | None => quiet st1 end)
   | ORecycle r => on r (fun ob _ =>
       quiet (mks (map (fun x => match x with Some o' => if Nat.eqb o' ob then None else x | None => None end) (regs st)) (objs st)))
   | ONop => quiet st
@@ -233,9 +272,14 @@ Fixpoint mm_eqb (a b : mmap) : bool :=
 Definition omm_eqb (a b : option mmap) : bool :=
   match a, b with None, None => true | Some x, Some y => mm_eqb (mm_sort x) (mm_sort y) | _, _ => false end.
 Definition value_eqb (a b : value) : bool :=
-  nlist_eqb (vseq a) (vseq b) && nlist_eqb (vqual a) (vqual b) && omm_eqb (vmm a) (vmm b).
-Definition ovalue_eqb (a b : option value) : bool :=
-  match a, b with None, None => true | Some x, Some y => value_eqb x y | _, _ => false end.
+  nlist_eqb (vseq a) (vseq b) && nlist_eqb (vqual a) (vqual b) && omm_eqb (vmm a) (vmm b) && nlist_eqb (vfeat a) (vfeat b).
+(** what a register shows of the mate: -1 none, the lowest register naming it, -2 when no register names it *)
+Definition mate_obs (rg : list (option nat)) (v : value) : Z :=
+  match vmate v with None => (-1)%Z | Some m => let i := first_reg m rg 0%Z in if (i <? 0)%Z then (-2)%Z else i end.
+Definition oval := (value * Z)%type.
+Definition oval_eqb (a b : oval) : bool := value_eqb (fst a) (fst b) && (snd a =? snd b)%Z.
+Definition ovalue_eqb (a b : option oval) : bool :=
+  match a, b with None, None => true | Some x, Some y => oval_eqb x y | _, _ => false end.
 Definition status_eqb (a b : status) : bool :=
   match a, b with SOk, SOk | SErr, SErr | SPanic, SPanic => true | _, _ => false end.
 Definition stepobs_eqb (a b : status * Z * Z) : bool :=
@@ -243,12 +287,12 @@ Definition stepobs_eqb (a b : status * Z * Z) : bool :=
 Fixpoint list_eqb {A} (eqb : A -> A -> bool) (a b : list A) : bool :=
   match a, b with [], [] => true | x :: a', y :: b' => eqb x y && list_eqb eqb a' b' | _, _ => false end.
 
-Definition snapshot (st : state) : list (option value) :=
-  map (fun r => match r with None => None | Some o => nth_error (objs st) o end) (regs st).
+Definition snapshot (st : state) : list (option oval) :=
+  map (fun r => match r with None => None | Some o => option_map (fun v => (v, mate_obs (regs st) v)) (nth_error (objs st) o) end) (regs st).
 
 (** a correspondence case: the history, and what the implementation answered (per-step status /
     result register / aliased register, and the value of every register at the end) *)
-Record hcase := mkh { hops : list op; hsteps : list (status * Z * Z); hfinal : list (option value) }.
+Record hcase := mkh { hops : list op; hsteps : list (status * Z * Z); hfinal : list (option oval) }.
 Definition hcase_ok (c : hcase) : bool :=
   let '(rs, st) := run st0 (hops c) in
   list_eqb stepobs_eqb rs (hsteps c) && list_eqb ovalue_eqb (snapshot st) (hfinal c).
